@@ -4,13 +4,14 @@ from harness import common, gens, codecio, oracles
 from harness.common import Stream, hexb
 
 PID = "C10"
-LEAN_MODULES = ["Astm.Proofs.C10"]
+LEAN_MODULES = ["Astm.Proofs.C10", "Astm.State.C10"]
 THEOREMS = [
     "Astm.C10.encoded_shape", "Astm.C10.split_of_encoded", "Astm.C10.frames_within_size",
     "Astm.C10.frames_checksum_valid", "Astm.C10.frames_numbered_consecutively", "Astm.C10.frames_terminators",
     "Astm.C10.frame_texts_concatenate", "Astm.C10.intermediate_iff_not_last", "Astm.C10.join_of_split",
     "Astm.C10.join_decodes_same_records", "Astm.C10.fits_unsplit", "Astm.C10.small_size_refused",
     "Astm.C10.encode_numbering", "Astm.C10.iter_encode_numbering", "Astm.C10.example_split",
+    "Astm.C10.anchored_code_keeps_no_other_state",
 ]
 RULE = ("exhaustive over (text length 0..L) x (size 5..S) x (start sequence number 0..Q) for single-record messages "
         "(quick: L=32,S=48,Q=8; thorough: L=64,S=80,Q=16), plus seeded multi-record / multi-field record lists with "
@@ -200,6 +201,18 @@ def run(ctx):
             oe.fail(dict(case, frames=[hexb(f) for f in frames]), bad[1], "other-encodings/" + bad[0])
     streams.append(oe)
 
+    # utils.split states its preconditions with assert statements; the same sample in an interpreter started with -O
+    oq = Stream("python-O")
+    res = common.run_under_O("C10", "optimised_sample", 600 if ctx.thorough else 150, "C10.O/%d" % common.seed())
+    oq.evaluations += res["evaluations"]
+    oq.nontrivial.update(range(res["evaluations"]))
+    oq.samples.append({"interpreter": "python -O", "assertions_enabled": res["debug"]})
+    if res["debug"]:
+        oq.fail({"interpreter": "python -O"}, "the child interpreter did not run with -O", "python-O/not-optimised")
+    for f in res["failures"][:1]:
+        oq.fail(f, "under python -O: " + f["what"], "python-O/" + f["signature"])
+    streams.append(oq)
+
     # utils.join / is_chunked_message / split directly (model vs implementation)
     u = Stream("utils-direct")
     from senaite.astm import utils
@@ -222,6 +235,45 @@ def run(ctx):
             u.disagree(meta, i, mo)
     streams.append(u)
     return streams
+
+
+def optimised_sample(n, seed_tag):
+    """(runs in a child interpreter under -O) the frame properties on a sample of record lists x sizes x sequence numbers,
+    incl. sizes that leave no room for text (must be refused)"""
+    from senaite.astm import codec
+    r = common.rng(seed_tag)
+    bad = []
+    k = 0
+    for _ in range(n):
+        recs = codecio.no_framing([codecio.canonical_record(r, "latin-1") for _ in range(r.choice([1, 2, 3]))])
+        seq = r.randrange(0, 17)
+        ok, whole = codecio.ok_or_err(codec.encode_message, seq, recs, "latin-1")
+        if not ok:
+            continue
+        size = r.choice([0, 1, 5, 6, 7, 8, 9, 10, 14, 15, 16, 20, 33, 64, 247, len(whole) - 1, len(whole), len(whole) + 1])
+        k += 1
+        try:
+            frames = list(codec.encode(recs, "latin-1", size, seq))
+            err = None
+        except Exception as e:  # noqa
+            frames, err = None, repr(e)[:80]
+        case = {"records": codecio.records_wire(recs), "size": size, "seq": seq, "assertions_enabled": __debug__}
+        what = None
+        if frames is None:
+            if size > 7:
+                what = ("refused", "encode refuses size %d (message %d bytes): %s" % (size, len(whole), err))
+        elif size <= 7 and len(whole) > size:
+            what = ("not-refused", "a size that leaves no room for text (%d) is not refused" % size)
+        elif size > 7:
+            try:
+                b = check_frames(recs, size, seq, frames, whole)
+            except Exception as e:  # noqa
+                b = ("raises", repr(e)[:80])
+            if b:
+                what = b
+        if what and len(bad) < 5:
+            bad.append(dict(case, signature=what[0], what=what[1]))
+    return {"evaluations": k, "failures": bad, "debug": __debug__}
 
 
 def utils_join(frames):
